@@ -163,6 +163,10 @@ class IndependentComponentsCopula(LevyCopula):
         kronecker_symbols = np.zeros_like(us)
         kronecker_symbols[us == np.inf] = 1.0
 
+        if np.all(us == np.inf):
+            # the only point where a Lévy copula is infinite: F(inf, ..., inf) = sum_i u_i
+            return np.inf
+
         res = 0
         for k, u in enumerate(us):
             if not np.isinf(u):
